@@ -10,6 +10,7 @@ MUT=${MUT:-/tmp/mut}
 cd $MUT && git checkout -q -- . && git clean -fdq && git checkout -q --detach main
 if ! git apply --check $SEED/patch.diff 2>/dev/null; then git checkout -q --detach ${BASE:-main}; echo "base: ${BASE:-main} (does not apply to main)"; else echo "base: main"; fi
 mkdir -p $MUT/_seed/x && cp $SEED/demo.py $MUT/_seed/x/demo.py
+[ -f $SEED/common.py ] && cp $SEED/common.py $MUT/_seed/common.py   # helper shared by one agent's demos
 /venv/bin/python _seed/x/demo.py >/dev/null 2>&1; echo "demo pristine exit=$? (want 0)"
 git apply $SEED/patch.diff || { echo "PATCH DOES NOT APPLY"; exit 3; }
 T=$(/venv/bin/python -m pytest -q -p no:cacheprovider 2>&1 | tail -1); echo "tests with patch: $T"
